@@ -205,8 +205,9 @@ def _get_hash_const(name):
     new_ssl_hash = hashlib.new
     try:
         # new() should throw ValueError if alg is unknown
+        # (and TypeError for a name it cannot even take, e.g. one containing NUL)
         new_ssl_hash(name, b"")
-    except ValueError:
+    except (ValueError, TypeError):
         pass
     else:
         # create wrapper function
@@ -292,7 +293,8 @@ def lookup_hash(
         # normalize name
         name_list = _get_hash_aliases(digest)
         name = name_list[0]
-        assert name
+        if not name:
+            raise exc.UnknownHashError(value=digest)
 
         # if name wasn't normalized to hashlib format,
         # get info for normalized name and reuse it.
